@@ -202,6 +202,52 @@ def rebuild_shard(args):
     return part.done()
 
 
+def bank_shard(args):
+    """Registry-driven: for every listed bank of a computing country a BBAN around its bank code,
+    with every value of the check field; whatever the library accepts nationally must round-trip
+    (a bank entry can steer national validation, e.g. through a stray checksum_algo)."""
+    from . import c12
+    _, country, tier = args
+    part = par.Part()
+    c = reg.countries()[country]
+    cl = bases.classes_of(c)
+    cps = c06.check_positions(country)
+    keys = sorted(k[1] for k in lookup.by_key() if k[0] == country)
+    if tier == "quick" and len(keys) > 400:
+        # every key still gets the reference digits and two neighbours; the full sweep of the check
+        # field is made for every 5th key
+        full = set(keys[::5])
+    else:
+        full = set(keys)
+    for code in keys:
+        text = c12.build_iban(country, code)
+        if text is None:
+            continue
+        body = text[4:]
+        good = nat.with_check(country, body) or body
+        if code in full:
+            values = list(itertools.product(*[reg.CLASS_CHARS[cl[p]] for p in cps]))
+        else:
+            g = tuple(good[p] for p in cps)
+            a = reg.CLASS_CHARS[cl[cps[-1]]]
+            values = [g, g[:-1] + (a[(a.index(g[-1]) + 1) % len(a)],), g[:-1] + (a[(a.index(g[-1]) + 2) % len(a)],)]
+        for vals in values:
+            chars = list(good)
+            for p, v in zip(cps, vals):
+                chars[p] = v
+            b = "".join(chars)
+            part["evals"] += 1
+            st, sig, obs = judge_rebuild(country, b)
+            if st != "skipped":
+                part.seen.add(hash(("bank", country, b)))
+                part.stat("library_accepted_for_listed_banks")
+            if st == "bad":
+                part.violation(f"{country}:{sig} [listed bank]", {"kind": "c09rebuild", "country": country,
+                                                                "bban": b}, "rebuilt == original", obs)
+    part.stat("listed_bank_keys", len(keys))
+    return part.done()
+
+
 def sequence_shard(args):
     """All computing countries generated in ONE process from components cut out of one common digit
     string (so that the component values of different countries concatenate to the same text), in
@@ -241,6 +287,8 @@ def sequence_shard(args):
 def shard(args):
     if args[0] == "seq":
         return sequence_shard(args)
+    if args[0] == "bank":
+        return bank_shard(args)
     return computing_shard(args) if args[0] == "comp" else rebuild_shard(args)
 
 
@@ -263,6 +311,7 @@ def main(tier: str) -> int:
     shards = [("comp", c, tier, f) for c in comp for f in c06.accepted_fillers(c, tier)]
     shards += [("rebuild", c, tier) for c in sorted(table) if table[c].positions]
     shards += [("seq", o, tier) for o in ("sorted", "reversed")]
+    shards += [("bank", c, tier) for c in comp]
     par.run_shards(run, shard, shards)
     run.extra.update({"computing_countries": comp,
                       "countries_with_positions": sum(1 for c in table.values() if c.positions),
